@@ -85,6 +85,10 @@ def common_config(prefix):
     c.ext_models["os.path.join"] = join_model
     c.ext_models["re.sub"] = resub_model
     c.ext_models["re.compile"] = lambda I, a, k: CompiledRe(a[0])
+    for _nm in ("shutil.move", "shutil.copy", "shutil.copy2", "shutil.copyfile", "os.rename", "os.replace"):
+        c.ext_models[_nm] = (lambda nm: lambda I, a, k: I.trace.append(Ev(nm, tuple(a))))(_nm)
+    c.ext_models["os.path.isfile"] = lambda I, a, k: I.fresh("bool", "isfile")
+    c.ext_models["os.remove"] = lambda I, a, k: I.trace.append(Ev("os.remove", tuple(a)))
     c.ext_models["os.path.exists"] = lambda I, a, k: I.fresh("bool", "exists")
     c.ext_models["os.path.dirname"] = lambda I, a, k: I.fresh("str", "dirname")
     c.ext_models["os.path.abspath"] = lambda I, a, k: I.fresh("str", "abspath")
@@ -129,7 +133,26 @@ def written_paths(I):
             out.append(("open", e.args[0]))
         elif e.name.endswith(".save_as") or e.name.endswith(".write_bytes") or e.name.endswith(".write_text"):
             out.append((e.name, e.args[0] if e.args else None))
+        elif e.name in ("shutil.move", "shutil.copy", "shutil.copy2", "shutil.copyfile", "os.rename", "os.replace"):
+            # the destination is written; for move/copy an existing DIRECTORY as destination means "into it" (see strict below)
+            out.append((e.name, e.args[1] if len(e.args) > 1 else None))
     return out
+
+
+INTO_DIRECTORY = ("shutil.move", "shutil.copy", "shutil.copy2")      # dst naming an existing directory: the file goes INTO it
+
+
+def _suffixed(pe):
+    """pe == <prefix> ++ "<concrete suffix without a separator>": returns (prefix, suffix) or (pe, "")"""
+    try:
+        if z3.is_app(pe) and pe.decl().kind() == z3.Z3_OP_SEQ_CONCAT and pe.num_args() >= 2 and z3.is_string_value(pe.arg(pe.num_args() - 1)):
+            suf = pe.arg(pe.num_args() - 1).as_string()
+            if "/" not in suf and "\x00" not in suf:
+                rest = [pe.arg(i) for i in range(pe.num_args() - 1)]
+                return (rest[0] if len(rest) == 1 else z3.Concat(*rest)), suf
+    except Exception:
+        pass
+    return pe, ""
 
 
 def check_writes(I, P, storage_dir):
@@ -143,10 +166,19 @@ def check_writes(I, P, storage_dir):
             continue
         pe = I.z(p)
         # the file-name part: the second operand of the os.path.join that produced this path (or the path itself
-        # when no directory was joined: current directory)
+        # when no directory was joined: current directory); a concrete suffix appended to such a path (a temporary name
+        # like "<path>.part") belongs to the file-name part
+        base, suffix = _suffixed(pe)
         jn = [(de, ne) for (de, ne, r) in I.ghost.get("joins", []) if r.eq(pe)]
+        if not jn and suffix:
+            jn = [(de, z3.Concat(ne, S(suffix))) for (de, ne, r) in I.ghost.get("joins", []) if r.eq(base)]
         if jn:
             de, ne = jn[-1]
+            if how in INTO_DIRECTORY:
+                # "", "." and ".." name existing directories: open()/save_as on them fails, but a move or copy puts the file
+                # INSIDE the named directory - for ".." that is the parent of the storage directory
+                I.ob(f"{P}/a-move-or-copy-destination-never-names-a-directory:not-empty-dot-or-dotdot",
+                     z3.And(ne != S(""), ne != S("."), ne != S("..")), detail=how)
             if storage_dir is None:
                 I.ob(f"{P}/written-path-starts-with-the-storage-directory", False, detail="joined although no directory configured")
                 continue
